@@ -3,6 +3,7 @@ package main
 import (
 	"bytes"
 	"context"
+	"errors"
 	"fmt"
 	"math"
 	"math/rand"
@@ -115,7 +116,7 @@ func init() {
 		Rule: "real janitor (DeleteExpiredJobInterval=1ms, DeleteExpiredAfter=1h) paused between cycles at its EvictionNeeded call-out; seeded rounds write mixes of never-expiring, fresh (+1h..+3h), " +
 			"recently expired (-1s..-30min) and long-expired (-2h..-10h) entries, then let 1..3 cleanup cycles run and compare Len/Walk/Read with the model (survivors = all but long-expired); " +
 			"TimeToLive finite and Unlimited (incl. first per-call TTL arriving late), all three backends; distinct_nontrivial = distinct (backend, ttl mode, class-mix pattern per round) cases containing a long-expired and a surviving entry",
-		Required:    []string{"cycles.observed", "entries.long_expired.deleted", "entries.never.survived", "entries.recent.survived", "entries.fresh.survived", "unlimited.late_ttl.cases", "hostile_callout.writes", "kind.ShardedMap", "kind.SyncMap", "kind.ShardedMapOf", "stress.rounds", "aging.must_be_deleted.checked", "aging.must_survive.checked", "parked.cases", "renewed.entries_checked"},
+		Required:    []string{"cycles.observed", "entries.long_expired.deleted", "entries.never.survived", "entries.recent.survived", "entries.fresh.survived", "unlimited.late_ttl.cases", "hostile_callout.writes", "kind.ShardedMap", "kind.SyncMap", "kind.ShardedMapOf", "stress.rounds", "aging.must_be_deleted.checked", "aging.must_survive.checked", "progress.cleaned", "parked.cases", "renewed.entries_checked"},
 		Assumptions: []string{"wall clock not stepped; class margins are >=1s against a 1h DeleteExpiredAfter boundary", "no eviction limit configured; EvictionNeeded always answers false"},
 		Timeout:     func(string) time.Duration { return 45 * time.Minute },
 	})
@@ -138,6 +139,9 @@ func runC11(b *Batch) {
 	}
 	if !b.Skip(2000000) && b.Only < 0 || b.Only == 2000000 {
 		c11Aging(b, 2000000)
+	}
+	if !b.Skip(2100000) && b.Only < 0 || b.Only == 2100000 {
+		c11Progress(b, 2100000)
 	}
 	n := b.Pick(2000, 400000) / b.NBatches
 	var wg sync.WaitGroup
@@ -819,7 +823,22 @@ func c11Aging(b *Batch, idx int) {
 					be.Write(cache.WithTTL(bg, -time.Millisecond, false), []byte(fmt.Sprintf("age-%d", i)), "v")
 				}
 				if unlimited {
-					be.Write(bg, []byte("forever"), "v")
+					for i, m := 0, 1+rng.Intn(4); i < m; i++ {
+						be.Write(bg, []byte(fmt.Sprintf("forever-%d", i)), "v")
+					}
+				}
+				if rng.Intn(2) == 0 {
+					// entries that arrive with their expiry through Restore
+					src := newBackend(kind, cache.Config{TimeToLive: time.Hour})
+					for i, m := 0, 1+rng.Intn(4); i < m; i++ {
+						src.Write(cache.WithTTL(bg, -time.Millisecond, false), []byte(fmt.Sprintf("rest-%d", i)), "v")
+					}
+					var buf bytes.Buffer
+					if _, err := src.Dump(&buf); err == nil {
+						if _, err := be.Restore(&buf); err == nil {
+							b.R.Count("aging.restored_cases", 1)
+						}
+					}
 				}
 				E := map[string]int64{}
 				be.Walk(func(k []byte, _ interface{}, exp timeT) error { E[string(k)] = exp.UnixNano(); return nil })
@@ -876,6 +895,17 @@ func c11Aging(b *Batch, idx int) {
 					return
 				}
 				judge(tr, tp, "aged")
+				// a cache that has been cleaned out keeps cleaning: a later per-call TTL entry, long expired, goes in the next cycle
+				for k := range E {
+					delete(E, k)
+				}
+				be.Write(cache.WithTTL(bg, -D-time.Hour, false), []byte("late"), "v")
+				be.Walk(func(k []byte, _ interface{}, exp timeT) error { E[string(k)] = exp.UnixNano(); return nil })
+				tr, tp, ok = cycle()
+				if !ok {
+					return
+				}
+				judge(tr, tp, "late")
 				b.R.Eval()
 				b.R.Count("aging.cases", 1)
 				b.R.Nontrivial(fmt.Sprintf("aging/%s/unl=%v", kind, unlimited))
@@ -1130,5 +1160,61 @@ func c12Converge(b *Batch, idx int) {
 	b.R.Nontrivial(fmt.Sprintf("converge/%s/L=%d/w=%d/idx=%d", kind, L, writers, idx%50))
 	if !ok {
 		b.R.Violate(b, idx, "C12:"+kind+":breach-not-evicted", fmt.Sprintf("count %d stays above CountSoftLimit %d for 10 s of 1ms cleanup cycles after the writers stopped", n, L), map[string]interface{}{"backend": kind, "L": L})
+	}
+}
+
+// reportCounter counts the periodic cache_items reports: a logical clock that ticks only while the cache's background
+// work is alive.
+type reportCounter struct{ n int64 }
+
+func (c *reportCounter) Add(context.Context, string, float64, ...string) {}
+func (c *reportCounter) Set(_ context.Context, name string, _ float64, _ ...string) {
+	if name == cache.MetricItems {
+		atomic.AddInt64(&c.n, 1)
+	}
+}
+
+// c11Progress: bounded progress of the cleanup job next to the other periodic job of a cache (items count report, enabled
+// by Stats). A long-expired entry must be gone well before the reporter has ticked thousands of times; the verdict is in
+// reporter ticks (the wall clock is only a watchdog).
+func c11Progress(b *Batch, idx int) {
+	for _, kind := range backendKinds {
+		for _, fastReport := range []bool{true, false} {
+			rc := &reportCounter{}
+			cfg := cache.Config{DeleteExpiredJobInterval: 2 * time.Millisecond, DeleteExpiredAfter: time.Millisecond, TimeToLive: time.Hour, Stats: rc}
+			if fastReport {
+				cfg.ItemsCountReportInterval = 300 * time.Microsecond
+			}
+			be := newBackend(kind, cfg)
+			be.Write(cache.WithTTL(bg, -time.Second, false), []byte("old"), "v")
+			be.Write(bg, []byte("fresh"), "v")
+			start := time.Now()
+			gone := false
+			for time.Since(start) < 30*time.Second {
+				if _, err := be.Read(bg, []byte("old")); errors.Is(err, cache.ErrNotFound) {
+					gone = true
+					break
+				}
+				if fastReport && atomic.LoadInt64(&rc.n) >= 3000 && time.Since(start) > 2*time.Second {
+					break
+				}
+				time.Sleep(time.Millisecond)
+			}
+			ticks := atomic.LoadInt64(&rc.n)
+			runtime.KeepAlive(be)
+			b.R.Eval()
+			switch {
+			case gone:
+				b.R.Count("progress.cleaned", 1)
+				b.R.Nontrivial(fmt.Sprintf("progress/%s/fast=%v", kind, fastReport))
+				if _, err := be.Read(bg, []byte("fresh")); err != nil {
+					b.R.Violate(b, idx, "C11:"+kind+":progress-fresh-deleted", fmt.Sprintf("fresh entry reads %v", err), nil)
+				}
+			case fastReport && ticks >= 3000:
+				b.R.Violate(b, idx, "C11:"+kind+":cleanup-starved", fmt.Sprintf("entry expired 1s ago (DeleteExpiredAfter 1ms, job interval 2ms) still stored after %d items-count reports (interval 300µs, %v): the cleanup job does not run next to the reporter", ticks, time.Since(start)), nil)
+			default:
+				b.R.Inconcl(fmt.Sprintf("C11 progress: no cleanup within watchdog (%s fast=%v ticks=%d)", kind, fastReport, ticks))
+			}
+		}
 	}
 }
